@@ -25,7 +25,8 @@ try:
     rc, out = sh('git -C /repo worktree add -f --detach %s HEAD' % wt, cwd='/repo')
     assert rc == 0, out
     demo_text = open(os.path.join(src, 'demo.rs')).read()
-    mfile = re.search(r'(simple-(?:dns|mdns)/src/[\w/]+\.rs)', notes + '\n' + demo_text[:600])
+    mfile = (re.search(r'(?i)append\w*\s+(?:it\s+)?(?:to\s+)?(?:the end of\s+)?`?(simple-(?:dns|mdns)/src/[\w/]+\.rs)', demo_text[:600] + '\n' + notes) or
+             re.search(r'(simple-(?:dns|mdns)/src/[\w/]+\.rs)', demo_text[:600] + '\n' + notes))
     snippet = ('#[cfg(test)]' in demo_text and re.search(r'^mod\s+\w+', demo_text, re.M) and mfile is not None)
     if snippet:
         # a crate-internal #[cfg(test)] module to append to a source file named in the notes
